@@ -524,19 +524,11 @@ class Text(Input):
                         if key in other[field]:
                             self._other_scores[field][d, o, s] = other[field][key]
 
-        maxLocationId = np.nan
-        for location in self._locations:
-            if np.isnan(maxLocationId):
-                maxLocationId = location.id
-            elif location.id > maxLocationId:
-                maxLocationId = location.id
-
-        counter = 0
-        if not np.isnan(maxLocationId):
-            counter = maxLocationId + 1
-
-        for location in self._locations:
-            if np.isnan(location.id):
+        # Number the locations when the file has no id column. A missing value in the id column is a
+        # missing id (as in NetCDF files), not a location to be given the next free id
+        if "location" not in indices and "id" not in indices:
+            counter = 0
+            for location in self._locations:
                 location.id = counter
                 counter = counter + 1
 
